@@ -17,6 +17,8 @@
 (*   "hom"     HomothetyOperator(p[1]/p[2], s)                             *)
 (*   "dense"   DenseBlockDiagonalOperator 'ij,j->i', p = <<r, c, e11, ..>> *)
 (*   "toep"    SymmetricBandToeplitzOperator, p = band values              *)
+(*   "obs"     ToastObservationMatrixOperator (square CSR matrix read from *)
+(*             a file), p = <<n, n, e11, ..>>                              *)
 (*   "diag"    DiagonalOperator, p = values (1-D, applied to every leaf)   *)
 (*   "diagq"   DiagonalOperator with rational values p[i+1]/p[1] (tiny or  *)
 (*             huge entries); "dinv" wraps it like "diag"                  *)
@@ -161,7 +163,7 @@ MapLeafShapes(s, mode, p) ==
 RECURSIVE InS(_)
 RECURSIVE OutS(_)
 InS(t) ==
-  CASE t.k \in {"id", "hom", "dense", "toep", "diag", "diagq", "bdiagb", "index", "pack", "mvax",
+  CASE t.k \in {"id", "hom", "dense", "obs", "toep", "diag", "diagq", "bdiagb", "index", "pack", "mvax",
                 "reshape", "ravel", "rot", "hwp", "pol"} -> t.s
     [] t.k = "dinv" -> InS(t.ch[1])
     [] t.k \in {"T", "RT", "inv", "rotT"} -> OutS(t.ch[1])
@@ -170,7 +172,7 @@ InS(t) ==
     [] t.k \in {"brow", "bdiag"} -> Subst(t.s, [i \in 1..Len(t.ch) |-> InS(t.ch[i])])
     [] t.k = "bcol" -> InS(t.ch[1])
 OutS(t) ==
-  CASE t.k \in {"id", "hom", "toep", "diag", "diagq", "rot", "hwp"} -> t.s
+  CASE t.k \in {"id", "hom", "obs", "toep", "diag", "diagq", "rot", "hwp"} -> t.s
     [] t.k = "dense" -> Leaf(<<t.p[1]>>, LeafDt(t.s))
     [] t.k = "bdiagb" -> Leaf(<<t.p[1], t.p[2]>>, LeafDt(t.s))
     [] t.k \in {"index", "pack", "mvax", "reshape", "ravel"} -> MapLeafShapes(t.s, t.k, t.p)
@@ -252,7 +254,7 @@ RECURSIVE Den(_)
 Den(t) ==
   CASE t.k = "id" -> IdentityMat(SizeS(t.s))
     [] t.k = "hom" -> MatScale(t.p[1], t.p[2], IdentityMat(SizeS(t.s)))
-    [] t.k = "dense" -> DenseMatOf(t.p)
+    [] t.k \in {"dense", "obs"} -> DenseMatOf(t.p)
     [] t.k = "toep" -> ToeplitzMat(t.s.sh[1], t.p)
     [] t.k = "diag" -> PerLeaf(t.s, LAMBDA l : DiagMat(t.p))
     [] t.k = "diagq" -> PerLeaf(t.s, LAMBDA l : DiagMatOver(Tail(t.p), t.p[1]))
